@@ -639,7 +639,7 @@ def h3(t, part):
             n = t.choice(width + 1)
             if k == 1:
                 return [tree(d - 1) for _ in range(n)]
-            return {'k%d' % i: tree(d - 1) for i in range(n)}
+            return {['num', 'k1', 'k2', 'k3'][i]: tree(d - 1) for i in range(n)}       # 'num' alone is an ordinary key
         trees = [tree(depth)]
         with notrace():
             return h3_body(t, part, trees)
